@@ -276,7 +276,7 @@ func (n *Net) Deliver(r *Rpc) bool {
 	r.Phase = phInHand
 	r.clean = tn != nil && tn.inc != nil && !tn.inc.Parked() && len(tgt.ch) == 0 && tn.FSM.Waiting() == 0
 	n.mu.Unlock()
-	n.c.noteHandling(r)
+	n.c.Tr.Emit("deliver", r.Dst, M{"id": r.ID, "kind": r.Kind, "src": r.Src, "term": reqTerm(r.Req)})
 	fast := false
 	if r.Kind == "hb" && n.c.Opt.HBFast {
 		tgt.hbMu.Lock()
@@ -377,6 +377,20 @@ func (n *Net) Duplicate(idx int) *Rpc {
 	n.mu.Unlock()
 	n.c.Tr.Emit("dup", o.Src, M{"id": d.ID, "of": o.ID, "kind": d.Kind, "dst": d.Dst, "req": reqJSON(n.c, d.Kind, d.Req)})
 	return d
+}
+
+func reqTerm(req any) uint64 {
+	switch r := req.(type) {
+	case *raft.AppendEntriesRequest:
+		return r.Term
+	case *raft.RequestVoteRequest:
+		return r.Term
+	case *raft.RequestPreVoteRequest:
+		return r.Term
+	case *raft.InstallSnapshotRequest:
+		return r.Term
+	}
+	return 0
 }
 
 func copyResp(dst, src any) {
